@@ -701,6 +701,25 @@ def lemma_step(name):
     return _prove(name + ".step", obl, exclude=[name + ".step"])
 
 
+def lemma_WofN_map():
+    """LitsOK(r, bv, sig, n) and n >= 0 imply MAll(r, n) = WofN(bv, sig, n): induction on n, one unfolding per step"""
+    from contracts import c_preocf as CP
+
+    r = z3.Const("r_wm", L.LForm.sort)
+    bv = z3.Const("bv_wm", StrSort)
+    sig = z3.Const("sig_wm", CP.LStr.sort)
+    n = z3.Int("n_wm")
+    claim = lambda k: z3.Implies(CP.LitsOK(r, bv, sig, k), L.MAll(r, k) == CP.WofN(bv, sig, k))
+    return _prove(
+        "lemma.WofN.map",
+        [
+            ("base n=0", [n == 0], claim(n), []),
+            ("step", [n >= 0, claim(n)], claim(n + 1), [L.LForm.at(r, n)]),
+        ],
+        exclude=["lemma.WofN.map"],
+    )
+
+
 def lemma_mem_at():
     mem, memw = L.mem_theory(L.Int)
     l = z3.Const("l_mat", LInt.sort)
@@ -721,6 +740,8 @@ LEMMAS = {
     "MargAtt.step": lambda: lemma_step("MargAtt"),
     "MargLB.step": lambda: lemma_step("MargLB"),
     "MargAny.step": lambda: lemma_step("MargAny"),
+    "LitsOK.step": lambda: lemma_step("LitsOK"),
+    "WofN.map": lemma_WofN_map,
     "CnfHolds.snoc": lemma_CnfHolds_snoc,
     "MCS.bridge": lemma_MCS_bridge,
     "MCS.bridge2": lemma_MCS_bridge2,
